@@ -118,11 +118,13 @@ def oracle(module, records, env=None, timeout=1800, cfg="Oracle", in_var="X_IN",
         shutil.rmtree(d, ignore_errors=True)
 
 
-def simulate(module, cfg, num, depth, seed, env=None, timeout=1800, extra=()):
-    """tlc -simulate; returns parsed result (PrintT output in res['out'])."""
+def simulate(module, cfg, num, depth, seed, env=None, timeout=1800, extra=(), workers=1, trace_prefix=None):
+    """tlc -simulate; returns parsed result (PrintT output in res['out']).
+    trace_prefix: write one TLA+ trace file per behaviour (<prefix>_<worker>_<n>); num is per worker."""
     meta = scratch("sim-")
     try:
-        args = ["-workers", "1", "-metadir", meta, "-noGenerateSpecTE", "-simulate", f"num={num}", "-depth", str(depth), "-seed", str(seed)]
+        simarg = f"num={num}" if not trace_prefix else f"file={trace_prefix},num={num}"
+        args = ["-workers", str(workers), "-metadir", meta, "-noGenerateSpecTE", "-simulate", simarg, "-depth", str(depth), "-seed", str(seed)]
         args += list(extra)
         args += ["-config", cfg + ".cfg", module + ".tla"]
         p = _java(args, env=env, timeout=timeout)
@@ -133,3 +135,30 @@ def simulate(module, cfg, num, depth, seed, env=None, timeout=1800, extra=()):
         return res
     finally:
         shutil.rmtree(meta, ignore_errors=True)
+
+
+_STATE_HDR = re.compile(r"^STATE_(\d+) ==", re.M)
+_VAR = re.compile(r"^/\\ (\w+) = ", re.M)
+_FIELD = re.compile(r'(\w+) \|-> "([^"]*)"')
+
+
+def parse_trace_file(path):
+    """A behaviour written by `-simulate file=`: list of states, each {var: raw TLA+ text}."""
+    with open(path) as f:
+        txt = f.read()
+    hdrs = list(_STATE_HDR.finditer(txt))
+    states = []
+    for i, h in enumerate(hdrs):
+        body = txt[h.end():hdrs[i + 1].start() if i + 1 < len(hdrs) else len(txt)]
+        body = re.sub(r"^\\\*.*$", "", body, flags=re.M)
+        vs = list(_VAR.finditer(body))
+        st = {}
+        for j, v in enumerate(vs):
+            st[v.group(1)] = body[v.end():vs[j + 1].start() if j + 1 < len(vs) else len(body)].strip().rstrip("=").strip()
+        states.append(st)
+    return states
+
+
+def parse_flat_record(text):
+    """[ a |-> "x", b |-> "y" ] with string fields -> dict"""
+    return dict(_FIELD.findall(text))
